@@ -14,6 +14,8 @@
   returned, `flags | 1` when it reports a transition — and `parse_tables_tie` proves that the whole
   pipeline of regenerated bodies equals the model step, for every configuration, every session state
   satisfying the C05 invariant (proved for every reachable state) and every byte string.
+  `packet_tables_tie` continues with the regenerated `Session.Notify` on the frame fields the regenerated Parse
+  stored: Parse + Notify over regenerated bodies = `Model.Tables.packet`, the step of the C06 histories.
 -/
 import PacketVerif.Props.C01ParseTie
 import PacketVerif.Props.C04TablesTie
@@ -124,6 +126,54 @@ theorem parse_tables_step (pc : Model.Cfg) (base : Tables.Cfg) {s : Tables.Sess}
   generalize Tables.parse (cfgOf pc base) s (frameEvOf p) now manuf = t at h hnp hinv
   refine ⟨r, t.s, t.host, if t.flag then 1 else 0, ?_, rfl, hinv⟩
   rw [h]; simp [viewOf, hnp]
+
+/-! ### … and `Notify(frame)` (C06) -/
+
+/-- `Parse`, then `Notify(frame)`, over regenerated bodies: the regenerated `Session.Notify` (F16) is given the frame
+    fields the regenerated Parse stored (`PayloadID`, `SrcAddr`) and the `Host` / `flags` the table functions left.
+    `none` = the `printHostTable` panic inside Parse.  (As in `Model.Tables.packet`, the C06 premise "Notify after every
+    Parse" is built in: the frame's error value is not looked at.) -/
+def genPacket (fm : Tables.MAC → String) (ce : TablesGo.ChanEnv) (pc : Model.Cfg) (s : Tables.Sess) (p : Bytes)
+    (now : Int) : Outcome (Option (Tables.Sess × List Tables.Notif)) :=
+  match genParseTables fm pc s p now with
+  | .ok (r, some (s1, host, flags)) =>
+    .ok (some (Gen.Tables.Session_Notify ce s1 [] host (r.frame.pid : Int) r.frame.srcMAC (ipOfBytes r.frame.srcIP) flags))
+  | .ok (_, none) => .ok none
+  | .err e => .err e
+  | .panic => .panic
+  | .hang => .hang
+
+/-- **Parse + Notify on the regenerated side = `Model.Tables.packet`** (the step of the C06 histories, no name learnt
+    in between): same state, same notifications in the same order — for every configuration, every state with the
+    C05 invariant, an open session whose channel has room (the C06 premise), every byte string. -/
+theorem packet_tables_tie (pc : Model.Cfg) (base : Tables.Cfg) {s : Tables.Sess} (hi : Inv s)
+    (fm : Tables.MAC → String) {ce : TablesGo.ChanEnv} (hc : ce.closed = false) (hl : ce.len < ce.cap)
+    (p : Bytes) (now : Int) :
+    genPacket fm ce pc s p now =
+      .ok (some (Tables.packet (cfgOf pc base) s (frameEvOf p) now
+        (manufOf fm (Tables.hostEvent (cfgOf pc base) (frameEvOf p))) none)) := by
+  obtain ⟨r, hg, h⟩ := parse_tables_tie pc base hi fm p now
+  have hr : parse pc p = .ok r := by rw [← C01ParseTie.parse_tie]; exact hg
+  obtain ⟨hd, hm⟩ := Compose.parse_notify_inputs pc p r hr
+  generalize hmf : manufOf fm (Tables.hostEvent (cfgOf pc base) (frameEvOf p)) = manuf at h ⊢
+  have hnp := Props.C05.step_no_panic (cfgOf pc base) s (.frame (frameEvOf p) now manuf) hi
+  have hinv := Props.C05.inv_step (cfgOf pc base) s (.frame (frameEvOf p) now manuf) hi
+  simp only [Tables.step] at hnp hinv
+  unfold genPacket Tables.packet
+  rw [h]
+  generalize Tables.parse (cfgOf pc base) s (frameEvOf p) now manuf = t at hnp hinv ⊢
+  simp only [viewOf, hnp, Bool.false_eq_true, if_false]
+  rw [C04TablesTie.Notify_tie hinv hc hl]
+  have hpid : (((r.frame.pid : Nat) : Int) == 10) = (r.frame.pid == Pid.dhcp4) := by
+    show (((r.frame.pid : Nat) : Int) == 10) = (r.frame.pid == 10)
+    by_cases h10 : r.frame.pid = 10
+    · rw [h10]; rfl
+    · have hne : ¬ ((r.frame.pid : Nat) : Int) = 10 := by omega
+      rw [beq_eq_false_iff_ne.mpr hne, beq_eq_false_iff_ne.mpr h10]
+  have hfl : ((if t.flag = true then 1 else 0 : Nat) &&& 1 == 1) = t.flag := by
+    cases t.flag <;> decide
+  rw [hpid, hd, hm, hfl]
+  cases t.host <;> simp
 
 /- non-vacuity: an IPv4 frame from a new LAN station on the empty tables, through the regenerated bodies:
     host 1 under MAC entry 0 is created, it is online, the transition flag is set -/
